@@ -135,6 +135,23 @@ static void init_headers(void)
 					  "HS 256", "HS+256", "HS0256", "HS\\t256", "RS 256", "RS+256", "ES0256", "PS 256", "ES +0384", "HS256 ", "HS-256", "HS256.0", "Ed DSA", "none " };
 	for (unsigned i = 0; i < sizeof variants / sizeof *variants; i++)
 		add_hd_str(variants[i]);
+	/* a known name followed by 256 or 512 more characters (a comparison that loses the high bits of a length difference) */
+	{
+		static char longhd[4][700], longlabel[4][24];
+		static const char *base[4] = { "HS256", "none", "ES256", "RS256" };
+		for (int i = 0; i < 4; i++) {
+			char tail[520];
+			int n = i % 2 ? 512 : 256;
+			memset(tail, 'x', n);
+			tail[n] = 0;
+			snprintf(longhd[i], sizeof longhd[i], "{\"alg\":\"%s%s\",\"typ\":\"JWT\"}", base[i], tail);
+			snprintf(longlabel[i], sizeof longlabel[i], "%s+%d chars", base[i], n);
+			hd_t *h = &HD[NHD++];
+			h->label = longlabel[i];
+			h->json = longhd[i];
+			h->alg_text = "XS999";   /* names no algorithm */
+		}
+	}
 	add_hd_raw("<missing>", "{\"typ\":\"JWT\"}");
 	add_hd_raw("<number>", "{\"alg\":1,\"typ\":\"JWT\"}");
 	add_hd_raw("<null>", "{\"alg\":null,\"typ\":\"JWT\"}");
@@ -671,7 +688,7 @@ static void enumerate_c02(void)
 		attrs[0] = NULL;
 		if (p)
 			na = attr_list(p, attrs);
-		char *tokens[48][NSK];
+		char *tokens[64][NSK];
 		memset(tokens, 0, sizeof tokens);
 		int tokens_built = 0;
 		for (int a = 0; a < na; a++) {
@@ -789,7 +806,7 @@ static void enumerate_c03(void)
 			const char *attr = a ? matching_attr(p) : NULL;
 			jwk_set_t *set = p ? load_pk(p, 0, attr) : NULL;
 			const jwk_item_t *item = set ? jwks_item_get(set, 0) : NULL;
-			char *vtok[48], *etok[48];
+			char *vtok[64], *etok[64];
 			int built = 0;
 			for (unsigned ai = 0; ai < sizeof ALGS / sizeof *ALGS; ai++)
 				for (int route = 0; route < NRT; route++)
